@@ -418,6 +418,32 @@ func genC16(g *G) {
 			}
 		}
 	}
+	// --- selection boundary: the running total reaches amount + estimate exactly / one below / one above while more UTXOs follow
+	for _, rate := range []uint64{0, 1, 5, 7} {
+		for np := 1; np <= 3; np++ {
+			ps := []string{}
+			amount := uint64(0)
+			for k := 0; k < np; k++ {
+				r, sc := rcp(byte(k + 1))
+				ps = append(ps, utoa(uint64(4000*(k+1)))+","+r+","+sc)
+				amount += uint64(4000 * (k + 1))
+			}
+			est := c16FeeGo(rate, uint64(np), uint64(np))
+			for d := int64(-1); d <= 1; d++ {
+				tgt := uint64(int64(amount+est) + d)
+				for _, first := range []uint64{tgt, tgt / 2} {
+					us := []string{fmt.Sprintf("%s,0,%d,1000", tx(1), first)}
+					if first != tgt {
+						us = append(us, fmt.Sprintf("%s,1,%d,1000", tx(1), tgt-first))
+					}
+					for _, tail := range []uint64{0, 1, 300, 5000} {
+						l := append(append([]string{}, us...), fmt.Sprintf("%s,0,%d,1001", tx(2), tail), fmt.Sprintf("%s,0,%d,1002", tx(3), 7000))
+						g.Emit("rawtx", utoa(rate), cid, br, joinOr(ps, ";"), joinOr(l, ";"))
+					}
+				}
+			}
+		}
+	}
 	// --- failure injection and degenerate shapes
 	u1 := tx(1) + ",0,50000,1000"
 	p1 := "10000," + r1 + "," + s1
